@@ -40,11 +40,14 @@ type HoRound struct {
 	StaleCancels []int `json:"stale_cancels,omitempty"`
 	StaleApprove int   `json:"stale_approve,omitempty"`
 	// DupDeposit > 0: the deposit batch of this round lists one of its outputs twice and must fail as a whole
-	DupDeposit int  `json:"dup_deposit,omitempty"`
-	Shape      int  `json:"shape"` // see hoShapes
-	Mut        int  `json:"mut"`
-	Repeat     int  `json:"repeat"`
-	Restart    bool `json:"restart"`
+	DupDeposit int `json:"dup_deposit,omitempty"`
+	// LostRound (harness-built shape): before the decided block, another well-formed proposal for the same height passes
+	// ProcessProposal but that round is never decided; nothing of it may reach the execution layer as head
+	LostRound bool `json:"lost_round,omitempty"`
+	Shape     int  `json:"shape"` // see hoShapes
+	Mut       int  `json:"mut"`
+	Repeat    int  `json:"repeat"`
+	Restart   bool `json:"restart"`
 }
 
 var hoShapes = []string{"real-prepare", "harness-built", "prepared-not-finalised", "mutated-system-section", "no-eth-message", "failing-eth-message"}
@@ -531,6 +534,29 @@ func (w *hoWorld) round(ri int, r HoRound, o *Outcome) *Failure {
 		ethTx = last.Txs[0]
 	case 1, 5:
 		prop0 := sim.Keys[string(blk.Proposer)]
+		if shape == 1 && r.LostRound && blk.Height > sim.Chain.Initial {
+			lost := blk
+			lost.Hash = world.DSha(append([]byte("lost-round"), blk.Hash...))
+			rawA, msgA, err := sim.Node.BuildEthBlockTx(lost, prop0, world.EthBlockOpts{Plan: plan})
+			if err != nil {
+				return failf("fixture", "eth-tx-build-failed", "%v", err)
+			}
+			engine.TakeLog()
+			pp, err := sim.Node.Process(lost.ProcessReq(append([][]byte{rawA}, txs...)))
+			if err != nil {
+				return failf("no-crash", "process-failed", "%v", err)
+			}
+			if pp.Status == abci.ResponseProcessProposal_ACCEPT {
+				time.Sleep(40 * time.Millisecond) // anything the application starts on its own after accepting gets time to show
+				for _, c := range engine.TakeLog() {
+					if c.Method == "fcu" && !c.HasAttrs && bytes.Equal(c.Head[:], msgA.Payload.BlockHash) {
+						return failf("unfinalised-consumes-nothing", "undecided-payload-made-head", "round %d: a proposal that was only accepted, never decided, was handed to the execution layer as its head (%x)", ri, c.Head[:6])
+					}
+				}
+				o.Classes = append(o.Classes, "lost-round")
+				w.nt = true
+			}
+		}
 		raw, _, err := sim.Node.BuildEthBlockTx(blk, prop0, world.EthBlockOpts{Plan: plan})
 		if err != nil {
 			return failf("fixture", "eth-tx-build-failed", "%v", err)
@@ -845,6 +871,7 @@ func genHoCase(t *rapid.T) HoCase {
 		if rapid.IntRange(0, 3).Draw(t, "unlockRoll") == 0 {
 			r.Unlocks = rapid.SampledFrom([]int{1, 3, 17, 22}).Draw(t, "unlocks")
 		}
+		r.LostRound = rapid.IntRange(0, 3).Draw(t, "lostRound") == 0
 		if rapid.IntRange(0, 4).Draw(t, "staleCancelRoll") == 0 {
 			r.StaleCancels = []int{rapid.IntRange(0, 9).Draw(t, "staleCancel")}
 		}
@@ -870,7 +897,7 @@ func TestC06_HandOver(t *testing.T) {
 	RunProp(t, Prop[HoCase]{
 		ID: "C06", Name: "handover", Quick: 480, Thor: 8000,
 		Gen: genHoCase, Run: runHoCase,
-		Rule: "histories of 4-24 rounds that fill every queue (voted hash batches of 1-16 hashes incl. batches not starting at tip+1, deposit batches of 1-12 (some listing one output twice, which must fail as a whole), refunds from undecodable addresses and approved cancellations, cancel requests and approvals aimed at withdrawals that were already refunded (no effect / must fail), claims and unlock bursts above the caps, unlocks of a second validator that exits and whose exit delay makes them mature together with later plain unlocks) under six round shapes: real PrepareProposal+ProcessProposal+FinalizeBlock, harness-built honest proposal, proposals prepared 1-3 times but never finalised, proposals whose system section is mutated (drop, duplicate, swap, foreign tx in front, invented tx at the end; block hash and count byte kept consistent) which must be REJECTED and whose message must fail when force-finalised, blocks without an execution-block message, failing execution-block messages; restarts between blocks; oracle: per-kind FIFO model with caps (1 hash, 8 deposits, 8 paid+refund, 16 rewards, 16 unlocks) and per-module nonces, compared with the payload attributes the fake execution layer receives at every prepare and with the leading transactions of every finalised payload; after a drain every owed item was delivered exactly once in order; voted heights are gap-free and never rewritten; non-trivial = a queue exceeded its cap or a non-finalised/rejected/failed round happened with non-empty queues; evaluations count rounds",
+		Rule: "histories of 4-24 rounds that fill every queue (voted hash batches of 1-16 hashes incl. batches not starting at tip+1, deposit batches of 1-12 (some listing one output twice, which must fail as a whole), refunds from undecodable addresses and approved cancellations, cancel requests and approvals aimed at withdrawals that were already refunded (no effect / must fail), claims and unlock bursts above the caps, unlocks of a second validator that exits and whose exit delay makes them mature together with later plain unlocks) under six round shapes: real PrepareProposal+ProcessProposal+FinalizeBlock, harness-built honest proposal (in a quarter of these rounds preceded by another well-formed proposal for the same height that passes ProcessProposal but is never decided: the execution layer must not be given it as head), proposals prepared 1-3 times but never finalised, proposals whose system section is mutated (drop, duplicate, swap, foreign tx in front, invented tx at the end; block hash and count byte kept consistent) which must be REJECTED and whose message must fail when force-finalised, blocks without an execution-block message, failing execution-block messages; restarts between blocks; oracle: per-kind FIFO model with caps (1 hash, 8 deposits, 8 paid+refund, 16 rewards, 16 unlocks) and per-module nonces, compared with the payload attributes the fake execution layer receives at every prepare and with the leading transactions of every finalised payload; after a drain every owed item was delivered exactly once in order; voted heights are gap-free and never rewritten; non-trivial = a queue exceeded its cap or a non-finalised/rejected/failed round happened with non-empty queues; evaluations count rounds",
 	})
 }
 
